@@ -285,6 +285,13 @@ async fn fam_fs(log: Log<String>, me: usize, s: Scn) {
             }
         }
     }
+    // timestamps are results too: they come from the simulated clock, never from the machine
+    for name in ["/w", "/w/d", "/w/d/alpha-0", "/w/d/beta-4", "/w/d/gamma-8"] {
+        if let Ok(m) = sfs::metadata(name) {
+            let t = |x: std::io::Result<std::time::SystemTime>| x.ok().and_then(|t| t.duration_since(std::time::SystemTime::UNIX_EPOCH).ok());
+            log.push(format!("n{me} stat {name} len {} created {:?} modified {:?} accessed {:?}", m.len(), t(m.created()), t(m.modified()), t(m.accessed())));
+        }
+    }
     let _ = sfs::create_dir("/w/d/sub");
     let _ = sfs::rename("/w/d/alpha-0", "/w/d/renamed");
     let _ = sfs::sync_dir("/w/d");
@@ -425,7 +432,8 @@ pub fn run_trace(seed: u64) -> Vec<String> {
         rec::set_step(0);
         let mut b = turmoil::Builder::new();
         b.tick_duration(Duration::from_millis(s.tick_ms))
-            .epoch(epoch(s.seed % 1000))
+            // one scenario in eight starts the clock at exactly UNIX_EPOCH (simulated time zero)
+            .epoch(if s.seed % 8 == 5 { std::time::SystemTime::UNIX_EPOCH } else { epoch(s.seed % 1000) })
             .rng_seed(s.seed)
             .min_message_latency(Duration::from_millis(s.min_ms))
             .max_message_latency(Duration::from_millis(s.max_ms))
